@@ -25,13 +25,13 @@ BATCH = 2
 MIN_RUNS = 8
 RULE = ('one evaluation = one sampled cache (Cache or FanoutCache shards; 4-14 items: inline and file-backed bytes / text / pickled '
         'values, tags, expiry) with one subset of the damage kinds {value file deleted, truncated, extended, unknown file added, empty '
-        'directory added, item counter wrong, size counter wrong} applied out of band (1-2 instances each); for each sampled cache all '
+        'directory added, item counter wrong, size counter wrong} applied out of band (1-2 instances each), the cache directory spelled plainly, with ./, //, a trailing slash, side/.. or relative to the working directory; for each sampled cache the empty subset (nothing may be reported) and all '
         '127 non-empty subsets are enumerated in the thorough tier and 10 are sampled in the quick tier; then check() (must report every '
         'damage item, change nothing), check(fix=True) (must report every damage item), check() again (must report nothing), and every '
         'remaining item is read back and compared; non-trivial = at least one damage item applied; distinct = SHA-256 of (cache '
         'program, damage list)')
 ASSUMPTIONS = ['damage is applied while no operation is in flight', 'truncation of text happens on a code-point boundary and extension appends ASCII, except in the low-rate probe of known finding F14']
-PROBES = ('damage_items', 'fanout_runs', 'rows_removed_by_fix', 'f14_probe')
+PROBES = ('damage_items', 'fanout_runs', 'rows_removed_by_fix', 'f14_probe', 'dir_spelled_dot', 'dir_spelled_double', 'dir_spelled_trailing', 'dir_spelled_dotdot', 'dir_spelled_relative')
 TECHNIQUE = 'deterministic simulation with out-of-band damage injection: damage-kind subsets enumerated per sampled cache; report / convergence / undamaged-intact oracle with an independent auditor'
 LEVEL_TEXT = ('fault enumeration over damage-kind subsets: caches are sampled by seed, and for each cache every non-empty subset of the '
               'seven damage kinds is applied (thorough tier); the oracle knows exactly what it damaged and compares the two warning lists per '
@@ -62,7 +62,9 @@ def gen_case(seed, tier):
         if rng.random() < 0.2:
             op['expire'] = 1000
         items.append(op)
-    cfg = {'fanout': fanout, 'shards': rng.choice((2, 3)), 'mfs': mfs, 'f14': rng.random() < 0.03}
+    cfg = {'fanout': fanout, 'shards': rng.choice((2, 3)), 'mfs': mfs, 'f14': rng.random() < 0.03,
+           # how the caller spells the directory: check() compares paths it builds from rows with paths it finds by walking
+           'dirform': rng.choice(('plain', 'plain', 'plain', 'dot', 'double', 'trailing', 'dotdot', 'relative', 'relative-dot'))}
     return {'seed': seed, 'cfg': cfg, 'items': items, 'damage': []}
 
 
@@ -76,19 +78,40 @@ def gen_damage(rng, kinds):
     return plan
 
 
+def spelled(world, name, form):
+    """The directory `name` under the scratch root, spelled the way `form` says (all forms name the same directory)."""
+    if form == 'dot':
+        return world.root + '/./' + name
+    if form == 'double':
+        return world.root + '//' + name
+    if form == 'trailing':
+        return world.path(name) + '/'
+    if form == 'dotdot':
+        os.makedirs(world.path('side'), exist_ok=True)
+        return world.path('side', '..', name)
+    if form in ('relative', 'relative-dot'):
+        os.chdir(world.root)
+        return name if form == 'relative' else './' + name
+    return world.path(name)
+
+
 def run_case(case):
     cfg = case['cfg']
     violations = []
     probes = {}
     world = World(case['seed'], clock={'mode': 'frozen'}, yield_clock=False)
+    cwd = os.getcwd()
     try:
         dc = world.dc
+        form = cfg.get('dirform', 'plain')
+        if form != 'plain':
+            probes['dir_spelled_' + form.split('-')[0]] = 1
         if cfg['fanout']:
-            top = dc.FanoutCache(world.path('f'), shards=cfg['shards'], disk_min_file_size=cfg['mfs'])
+            top = dc.FanoutCache(spelled(world, 'f', form), shards=cfg['shards'], disk_min_file_size=cfg['mfs'])
             caches = list(top._shards)
             probes['fanout_runs'] = 1
         else:
-            top = dc.Cache(world.path('c'), disk_min_file_size=cfg['mfs'])
+            top = dc.Cache(spelled(world, 'c', form), disk_min_file_size=cfg['mfs'])
             caches = [top]
         expected = {}
         for it in case['items']:
@@ -282,6 +305,7 @@ def run_case(case):
                     violations.append({'rule': 'C17/audit-after-repair', 'sig': ','.join(sorted({p[0] for p in problems})), 'detail': str(problems[:3])})
         top.close()
     finally:
+        os.chdir(cwd)
         world.close()
     digest = hashlib.sha256(json.dumps(case, sort_keys=True).encode()).hexdigest()
     return {'violations': violations, 'digest': digest, 'steps': len(case['items']) + len(case['damage']), 'switches': 0,
@@ -297,6 +321,7 @@ def run_seed(seed, tier):
         subsets.extend(itertools.combinations(KINDS, n))
     if tier == 'quick':
         subsets = rng.sample(subsets, 10)
+    subsets.insert(0, ())      # no damage at all: check() must report nothing and change nothing
     results = []
     for i, kinds in enumerate(subsets):
         c = copy.deepcopy(case)
